@@ -777,6 +777,59 @@ def _shard_fasta(args):
 # ------------------------------------------------------------------------------------------------
 # run / replay
 # ------------------------------------------------------------------------------------------------
+# ---------------------------------------------------------------------------------------------
+# prefix-history graph: the prefix route must not depend on which prefixed lookups came before
+# (module-level caches); events = formula('<type>:<codes>') over strings whose letters are codes of
+# all three tables; every path of <= depth events runs in its own chain of forked interpreters
+HIST_STRINGS = ("GATTACA", "ACGT", "N")
+
+
+def _hist_walk(E, acc, hist, depth, events):
+    from ..histmc import in_fork
+    for ev in events:
+        def node(ev=ev):
+            sub = Acc()
+            t, raw = ev
+            ok = check_prefix(E, sub, t, raw)
+            sub.states += 1
+            sub.transitions += 1
+            if hist:
+                sub.nontrivial += 1
+            out = Acc()
+            out.merge(sub)
+            out.viol = {}
+            for sig, rec in sub.viol.items():
+                h2 = [list(h) for h in hist] + [list(ev)]
+                code = "import periodictable\n" + "".join(
+                    "print(periodictable.formula(%r).atoms)\n" % ("%s:%s" % (a, b)) for a, b in h2) + \
+                    "# the last line must be the labile formula of fasta.Sequence('x', %r, type=%r)\n" % (raw, t)
+                out.violation(("prefix-history:" if hist else "") + sig, dict(kind="prefix-history", history=h2),
+                              expected=rec["expected"], observed=rec["observed"], standalone=code)
+            if ok and len(hist) + 1 < depth:
+                _hist_walk(E, out, hist + (ev,), depth, events)
+            return out
+        acc.merge(in_fork(node))
+
+
+def _shard_prefix_history(args):
+    first, depth, seed = args
+    E = env()
+    acc = Acc()
+    events = rotate([(t, s) for t in TYPES for s in HIST_STRINGS], seed)
+    # the first event is fixed by the shard; deeper events range over the whole alphabet
+    from ..histmc import in_fork
+    def root():
+        sub = Acc()
+        ok = check_prefix(E, sub, first[0], first[1])
+        sub.states += 1; sub.transitions += 1
+        if ok and depth > 1:
+            _hist_walk(E, sub, (first,), depth, events)
+        return sub
+    acc.merge(in_fork(root))
+    acc.sample(dict(kind="prefix-history", first=list(first), depth=depth))
+    return acc
+
+
 def run(ctx):
     E = env()
     acc = ctx.acc
@@ -813,6 +866,11 @@ def run(ctx):
         jobs.append((_shard_fasta, (part, fasta_exts, False, ctx.seed, i == 0)))
     for i, part in enumerate(chunks(fasta_files(sweep_lines), n_sweep)):
         jobs.append((_shard_fasta, (part, EXTENSIONS, True, ctx.seed, i == 0)))
+    hist_depth = 3 if ctx.quick else 4
+    for t in TYPES:
+        for hs in HIST_STRINGS:
+            jobs.append((_shard_prefix_history, ((t, hs), hist_depth, ctx.seed)))
+    acc.info["max_prefix_history_depth"] = hist_depth
     jobs = rotate(jobs, ctx.seed)
     ctx.pmap(_dispatch, jobs)
     acc.traces = acc.evaluations          # every execution of the real code is compared
@@ -849,6 +907,16 @@ def replay(ctx, case, signature=None):
         check_decorated(E, acc, case["type"], case["raw"])
     elif kind == "prefix":
         check_prefix(E, acc, case["type"], case["raw"])
+    elif kind == "prefix-history":
+        from ..histmc import in_fork
+        def work():
+            sub = Acc()
+            for t, raw in case["history"]:
+                check_prefix(E, sub, t, raw)
+            return sub
+        sub = in_fork(work)
+        for sig, rec in sub.viol.items():
+            acc.violation("prefix-history:" + sig, case, expected=rec["expected"], observed=rec["observed"])
     elif kind in ("read_fasta", "load"):
         tmpdir = tempfile.mkdtemp(prefix="verif-c18-")
         try:
